@@ -46,7 +46,14 @@ func newSrvClient(addr string) (*srvClient, error) {
 		gorums.WithGrpcDialOptions(grpc.WithTransportCredentials(insecure.NewCredentials())))
 	var err error
 	c.cfg, err = c.mgr.NewConfiguration(c.qs, gorums.WithNodeMap(map[string]uint32{addr: 1}))
-	return c, err
+	if err != nil {
+		return nil, err
+	}
+	nd := c.cfg.Nodes()[0]
+	if !waitFor(15*time.Second, func() bool { return probe(nd, 500*time.Millisecond) }) {
+		return nil, fmt.Errorf("server did not become reachable within 15s")
+	}
+	return c, nil
 }
 
 func srvMain(args []string) {
@@ -108,6 +115,7 @@ func srvMain(args []string) {
 					}
 					clients = append(clients, c)
 				}
+				cl.D.ResetLog()
 				modes := []string{"", "early", "twice", "helper", "late", "storm"}
 				type reqT struct {
 					conn   int
